@@ -243,3 +243,8 @@ def _replay_pure(case):
 
 
 REPLAY_RUNNERS = {"pure": _replay_pure}
+
+
+# checks that live in their own modules register themselves here
+from . import registry_ext as _registry_ext  # noqa: E402
+_registry_ext.register(PROPS, CLASSIFIERS, REPLAY_RUNNERS)
